@@ -565,12 +565,12 @@ class Sound:
         """
         file.write(f'"{self.name}"\n\t{{\n')
         file.write(f'\tchannel {self.channel}\n')
-        file.write(f'\tsoundlevel {join_float(self.level)}\n')
+        file.write(f'\tsoundlevel "{join_float(self.level)}"\n')
 
         if self.volume != (1, 1):
-            file.write(f'\tvolume {join_float(self.volume)}\n')
+            file.write(f'\tvolume "{join_float(self.volume)}"\n')
         if self.pitch != (100, 100):
-            file.write(f'\tpitch {join_float(self.pitch)}\n')
+            file.write(f'\tpitch "{join_float(self.pitch)}"\n')
 
         if len(self.sounds) != 1:
             file.write('\trndwave\n\t\t{\n')
